@@ -238,6 +238,8 @@ func matrixLines(r *hx.Rng, c *ectx, ind string) []string {
 var runsOn = []string{
 	"ubuntu-latest", "windows-latest", "macos-latest", "[self-hosted, linux]", "[ubuntu-latest, windows-latest]",
 	"[self-hosted, windows, macos]", "unknown-label-9", "${{ matrix.os }}", "[linux, \"${{ matrix.os }}\"]",
+	// labels of the configuration's patterns, as the patterns spell them and in another letter case
+	"GPU-large", "gpu-large", "[self-hosted, GPU-small]", "[self-hosted, gpu-small]", "ARM-big", "arm-big", "exact-label", "Exact-Label",
 }
 
 // genJob: one job with id `id`; needs: ids it needs with their outputs; declOutput != "" declares that output.
@@ -397,8 +399,19 @@ func lintSrc(l *actionlint.Linter, src string) ([]diagT, error) {
 	return ds, nil
 }
 
+// configFile: self-hosted runner labels given by patterns (matched against the label as written)
+var configFile string
+var configOnce sync.Once
+
 func newLinter() *actionlint.Linter {
-	l, err := actionlint.NewLinter(io.Discard, &actionlint.LinterOptions{Shellcheck: "", Pyflakes: ""})
+	configOnce.Do(func() {
+		f, err := os.CreateTemp("/var/tmp", "c09-actionlint-*.yaml")
+		hx.Must(err)
+		f.WriteString("self-hosted-runner:\n  labels:\n    - GPU-*\n    - arm-*\n    - Exact-Label\n")
+		f.Close()
+		configFile = f.Name()
+	})
+	l, err := actionlint.NewLinter(io.Discard, &actionlint.LinterOptions{Shellcheck: "", Pyflakes: "", ConfigFile: configFile})
 	hx.Must(err)
 	return l
 }
@@ -804,7 +817,9 @@ func main() {
 	// are added after them, and do not vary between runs
 	{
 		fl := newLinter()
-		job := func(id, needs string) string { return id + ": {needs: [" + needs + "], runs-on: ubuntu-latest, steps: [{run: echo}]}" }
+		job := func(id, needs string) string {
+			return id + ": {needs: [" + needs + "], runs-on: ubuntu-latest, steps: [{run: echo}]}"
+		}
 		alone := "on: push\njobs: {" + job("a", "b") + ", " + job("b", "a") + "}\n"
 		comp := "on: push\njobs: {" + job("a", "b") + ", " + job("b", "a") + ", " + job("c", "d") + ", " + job("d", "c") + ", " + job("e", "e") + "}\n"
 		render := func(ds []diagT) []string {
@@ -854,6 +869,9 @@ func main() {
 	sum.Extra["expr_cases"] = len(terms)
 	sum.Extra["state_cases"] = len(sterms)
 	sum.Write(filepath.Join(*out, "summary.json"))
+	if configFile != "" {
+		os.Remove(configFile)
+	}
 }
 
 func doReplay(path string) int {
